@@ -345,7 +345,7 @@ class LabReplay:
             key.update(nu=ev["nu"], du=ev["du"], ncomp=min(ev["ncomp"], 3), solvent_present=ev["solventPresent"],
                        solute_kind=KIND[ev["solute"]], solvent_kind=KIND[ev["solvent"]])
         elif op == "create_solution":
-            key.update(given=ev["given"], nsolutes=len(ev["solutes"]), solvent="container" if ev["solvIsVessel"] else "pure",
+            key.update(given=ev["given"], nsolutes=len(ev["solutes"]), solvent=("container_" + ev["solvent"]) if ev["solvIsVessel"] else "pure",
                        solute_kinds="+".join(KIND[x] for x in ev["solutes"]),
                        units="|".join((f"{a}/{b}" for a, b in zip(ev["nu"], ev["du"])) if ev["given"] != "qt" else ev["qu"]),
                        tu=ev["tu"] if ev["given"] != "cq" else "-", qu="|".join(ev["qu"]) if ev["given"] != "ct" else "-")
